@@ -27,8 +27,10 @@ RULE = ("every numeric option / constant over its boundary lattice (below, "
 ASSUMPTIONS = [
     "the documented table (domains, defaults, relations) is transcribed "
     "from the minimize docstring, settings.py and the error messages",
-    "a ValueError raised only after the initial sampling (nb_points < n+1) "
-    "is accepted as rejection and counted as 'late_rejection'",
+    "'raise ValueError rather than run with it': a ValueError raised only "
+    "after user functions were called is a violation (clause "
+    "late_rejection; it was accepted until fix 90f694b moved the nb_points "
+    ">= n+1 test to the validation of the options)",
 ]
 REQUIRED = {"calls": 500, "rejected": 100, "ran": 100,
             "completed_settings_checked": 100}
@@ -66,7 +68,9 @@ SINGLES = _single_list()
 PAIRS = _pair_list()
 PLAN = [("single", len(SINGLES), len(SINGLES)),
         ("pair", len(PAIRS), len(PAIRS)),
-        ("subset", 400, 6000), ("unknown", 40, 200), ("defaults", 4, 8)]
+        ("subset", 400, 6000), ("unknown", 120, 600), ("npt_low", 80, 600),
+        ("degenerate", 150, 1500),
+        ("defaults", 4, 8)]
 EXHAUSTIVE = False
 
 
@@ -182,8 +186,15 @@ def judge(n, supplied, rec, viols, info):
     if reasons:
         if isinstance(exc, ValueError):
             info["rejected"] = 1
-            if rec.run.counts.get("tr.init.pre"):
+            if rec.run.counts.get("eval.pre") or rec.run.log:
+                # rejected, but only after user functions had been called
                 info["late_rejection"] = 1
+                viols.append(V("late_rejection",
+                               f"invalid settings {supplied} "
+                               f"({'; '.join(reasons)}) were rejected only "
+                               f"after {len(rec.run.evals)} evaluation(s) of "
+                               f"the user's functions",
+                               mechanism="late:" + ",".join(sorted(supplied))))
         elif exc is None:
             viols.append(V("invalid_accepted",
                            f"minimize ran with invalid settings {supplied} "
@@ -284,16 +295,27 @@ def run_case(case):
         if where in ("option", "both"):
             spec2["options"]["max_fev"] = 3
         if where in ("constant", "both"):
-            spec2["constants"]["radius_increase"] = 7.0
+            # a misspelt constant, or a name that happens to be a parameter
+            # of an internal routine the constants are forwarded to
+            uname = str(rng.choice(["radius_increase", "radius_increase",
+                                    "debug", "delta", "xl", "xu", "grad",
+                                    "hess_prod", "aub", "bub", "aeq", "beq",
+                                    "const", "curv", "xpt", "kwargs", "self",
+                                    "pb", "penalty"]))
+            spec2["constants"][uname] = 7.0 if uname != "debug" else True
+            where = where + ":" + ("misspelt" if uname == "radius_increase"
+                                   else "internal_parameter_name")
         rec = mrun.run(spec2)
         info["calls"] = 1
         warned = [w for w in rec.warnings if w[0] == "RuntimeWarning"
                   and "nknown" in w[1]]
-        want = 2 if where == "both" else 1
+        want = 2 if where.startswith("both") else 1
         if rec.exc is not None:
             viols.append(V("unknown_name_raises",
-                           f"unknown {where} name raised "
-                           f"{type(rec.exc).__name__}: {str(rec.exc)[:100]}"))
+                           f"unknown {where} name "
+                           f"{sorted(spec2['constants'])} raised "
+                           f"{type(rec.exc).__name__}: {str(rec.exc)[:100]}",
+                           mechanism="unknown:" + where))
         else:
             info["ran"] = 1
             if len(warned) < want:
@@ -313,6 +335,88 @@ def run_case(case):
                                f"an unknown {where} name changed the run"))
         nt = f"unknown|{where}|n{n}"
         sample = {"unknown": where, "warnings": warned[:2]}
+    elif fam == "degenerate":
+        # the restrictions are enforced whatever the problem: all variables
+        # fixed by the bounds, or inconsistent bounds (the run returns before
+        # any model is built)
+        n = int(rng.integers(1, 4))
+        spec = base_spec(n)
+        kind = str(rng.choice(["allfixed", "inconsistent"]))
+        x0 = np.asarray(spec["x0"], float)
+        if kind == "allfixed":
+            lb = ub = x0 + 0.25
+        else:
+            lb, ub = x0 + 1.0, x0 - 1.0
+        spec["bounds"] = {"lb": np.asarray(lb).tolist(),
+                          "ub": np.asarray(ub).tolist(), "form": "Bounds"}
+        names = [k for k in NUMERIC if k != "nb_points"]
+        name = names[int(rng.integers(len(names)))]
+        lat = S.lattice(name, n)
+        pos, val = lat[int(rng.integers(len(lat)))]
+        spec["options"]["maxfev"] = 20
+        put(spec, name, val)
+        if rng.random() < 0.3:
+            spec["constants"]["radius_increase"] = 7.0   # unknown name
+        supplied = {k: v for k, v in list(spec["options"].items())
+                    + list(spec["constants"].items())
+                    if k != "radius_increase"}
+        rec = mrun.run(spec)
+        reasons = expected_valid(n, supplied)
+        info["calls"] = 1
+        if reasons:
+            if isinstance(rec.exc, ValueError):
+                info["rejected"] = 1
+            else:
+                viols.append(V(
+                    "invalid_accepted",
+                    f"{kind} bounds: minimize "
+                    f"{'ran' if rec.exc is None else 'raised ' + type(rec.exc).__name__}"
+                    f" with invalid settings {supplied} "
+                    f"({'; '.join(reasons)})",
+                    mechanism="degenerate:" + kind))
+        elif rec.exc is not None:
+            viols.append(V("valid_rejected",
+                           f"{kind} bounds: valid settings {supplied} raised "
+                           f"{type(rec.exc).__name__}: {str(rec.exc)[:120]}",
+                           mechanism="degenerate:" + kind))
+        else:
+            info["ran"] = 1
+            if "radius_increase" in spec["constants"] and not [
+                    w for w in rec.warnings if w[0] == "RuntimeWarning"
+                    and "nknown" in w[1]]:
+                viols.append(V("unknown_name_no_warning",
+                               f"{kind} bounds: unknown constant name "
+                               f"produced no RuntimeWarning",
+                               mechanism="degenerate:" + kind))
+        nt = f"degenerate|{kind}|{name}|{pos}"
+        sample = {"bounds": kind, "setting": name, "value": val}
+    elif fam == "npt_low":
+        # nb_points below n+1 (also fractional) together with something that
+        # ends the run during the initial sampling: still a ValueError
+        n = int(rng.integers(1, 5))
+        spec = base_spec(n)
+        npt = [1, max(1, n - 1), n, 0.5, n + 0.5][int(rng.integers(5))]
+        early = str(rng.choice(["maxfev1", "maxfev_npt", "target", "callback",
+                                "none"]))
+        spec["options"]["nb_points"] = npt
+        spec["options"]["maxfev"] = 3 * n + 8
+        if early == "maxfev1":
+            spec["options"]["maxfev"] = 1
+        elif early == "maxfev_npt":
+            spec["options"]["maxfev"] = max(1, int(npt))
+        elif early == "target":
+            spec["options"]["target"] = 1e25
+        elif early == "callback":
+            spec["callback"] = {"conv": "pos", "stop_at": 1}
+        supplied = dict(spec["options"])
+        rec = mrun.run(spec)
+        judge(n, supplied, rec, viols, info)
+        for v in viols:
+            v["witness"]["mechanism"] = "npt_low:" + early
+        nt = f"npt_low|n{n}|{npt}|{early}"
+        sample = {"n": n, "nb_points": npt, "early_exit": early,
+                  "outcome": "ValueError" if isinstance(rec.exc, ValueError)
+                  else ("ran" if rec.exc is None else type(rec.exc).__name__)}
     else:  # defaults: nothing supplied (but a large final radius to be short)
         n = 1 + case["idx"] % 3
         spec = base_spec(n)
